@@ -68,6 +68,8 @@ enum {
 enum { MVF_READ = 1, MVF_WRITE = 2, MVF_FULL = 3 };
 /* kinds of MYTH_VERIF_ALLOC/FREE */
 enum { MVA_DESC = 1, MVA_STACK = 2 };
+/* kinds of MYTH_VERIF_QOP: the owner-only run queue operations */
+enum { MVQ_PUSH = 1, MVQ_POP = 2 };
 
 extern void (*volatile myth_verif_point_fn)(int id);
 extern void (*volatile myth_verif_spin_fn)(int id);
@@ -76,6 +78,7 @@ extern void (*volatile myth_verif_worker_fn)(int rank, unsigned int * rng);
 extern void (*volatile myth_verif_alloc_fn)(int kind, void * ptr, size_t size, int rank);
 extern void (*volatile myth_verif_free_fn)(int kind, void * ptr, size_t size, int rank);
 extern int  (*volatile myth_verif_clock_fn)(struct timespec * ts);
+extern void (*volatile myth_verif_qop_fn)(void * q, int kind);
 
 #define MYTH_VERIF_POINT(id) \
   do { void (*f_)(int) = myth_verif_point_fn; if (f_) f_(id); } while (0)
@@ -89,6 +92,8 @@ extern int  (*volatile myth_verif_clock_fn)(struct timespec * ts);
 #define MYTH_VERIF_FREE(kind,ptr,size,rank) \
   do { void (*f_)(int,void*,size_t,int) = myth_verif_free_fn; \
        if (f_) f_(kind,(void*)(ptr),(size_t)(size),rank); } while (0)
+#define MYTH_VERIF_QOP(q,kind) \
+  do { void (*f_)(void*,int) = myth_verif_qop_fn; if (f_) f_((void*)(q),kind); } while (0)
 
 #else  /* MYTH_VERIF */
 
@@ -97,6 +102,7 @@ extern int  (*volatile myth_verif_clock_fn)(struct timespec * ts);
 #define MYTH_VERIF_FENCE(k)  ((void)0)
 #define MYTH_VERIF_ALLOC(kind,ptr,size,rank) ((void)0)
 #define MYTH_VERIF_FREE(kind,ptr,size,rank)  ((void)0)
+#define MYTH_VERIF_QOP(q,kind) ((void)0)
 
 #endif	/* MYTH_VERIF */
 
